@@ -66,6 +66,9 @@ enum Case {
   OutOfRange { bytes: usize, k: usize, op: u8 },
   /// list of `bytes` bytes of deterministic incompressible filler number `fill`
   RoundTrip { bytes: usize, fill: u8 },
+  /// list made by the library's own `new(entries)`, entries set per `pattern` (0 none; 1 first and last; 2 every
+  /// index 2^k - 1 and 2^k below the length, and the last), encoded and decoded again
+  SizeLadder { entries: usize, pattern: u8 },
   /// (c): initial pattern byte, list size in entries, sequence of (index-id, value)
   History { pattern: u8, entries: usize, ops: Vec<(u8, bool)> },
   /// (d): initial credential configuration, purpose (0 revocation, 1 suspension), sequence of credential operations
@@ -352,6 +355,71 @@ fn eval(ctx: &Ctx, case: &Case) {
       }
       ctx.outcome(&format!("round-trip:b64-length%4={}", enc.trim_end_matches('=').len() % 4));
       ctx.distinct(&(6u8, bytes, fill));
+    }
+    Case::SizeLadder { entries, pattern } => {
+      let mut list = match guard(|| StatusList2021::new(*entries)) {
+        Ok(Ok(l)) => l,
+        Ok(Err(_)) => {
+          // which sizes `new` admits above the minimum is not stated; a refused size has no list to round-trip
+          ctx.outcome("size-ladder:new-refused(not judged)");
+          return;
+        }
+        Err(p) => return ctx.violation(&format!("StatusList2021::new|{}", p.key()), &p.msg, case),
+      };
+      let len = list.len();
+      if len < *entries || len >= *entries + 8 {
+        return ctx.violation("StatusList2021::len|not-the-requested-size-rounded-up-to-a-byte", &format!("new({entries}).len() = {len}"), case);
+      }
+      let mut set: Vec<usize> = match pattern {
+        0 => vec![],
+        1 => vec![0, len - 1],
+        _ => {
+          let mut v = vec![len - 1];
+          let mut p = 1usize;
+          while p < len {
+            v.push(p - 1);
+            v.push(p);
+            p <<= 1;
+          }
+          v
+        }
+      };
+      set.sort();
+      set.dedup();
+      for &i in &set {
+        match guard(|| list.set(i, true)) {
+          Ok(Ok(())) => {}
+          Ok(Err(e)) => return ctx.violation("StatusList2021::set|in-range-index-refused", &format!("set({i}, true) on a list of {len}: {e}"), case),
+          Err(p) => return ctx.violation(&format!("StatusList2021::set|{}", p.key()), &p.msg, case),
+        }
+      }
+      let enc = match guard(|| list.clone().into_encoded_str()) {
+        Ok(s) => s,
+        Err(p) => return ctx.violation(&format!("StatusList2021::into_encoded_str|{}", p.key()), &p.msg, case),
+      };
+      let back = match guard(|| StatusList2021::try_from_encoded_str(&enc)) {
+        Ok(Ok(b)) => b,
+        Ok(Err(e)) => return ctx.violation("StatusList2021::try_from_encoded_str|own-encoding-rejected", &short(&format!("list of {len} entries: {e}")), case),
+        Err(p) => return ctx.violation(&format!("StatusList2021::try_from_encoded_str|{}", p.key()), &p.msg, case),
+      };
+      if back.len() != len || back != list {
+        return ctx.violation("StatusList2021::encode-decode|not-identity", &format!("list of {len} entries ({} set) decodes to a list of {} entries", set.len(), back.len()), case);
+      }
+      // the set entries and both neighbours of each read back as written
+      for &i in &set {
+        for j in [i.wrapping_sub(1), i, i + 1] {
+          if j >= len {
+            continue;
+          }
+          let want = set.binary_search(&j).is_ok();
+          match guard(|| back.get(j)) {
+            Ok(Ok(got)) if got == want => {}
+            other => return ctx.violation("StatusList2021::encode-decode|not-identity", &short(&format!("entry {j} of {len} should read {want}: {other:?}")), case),
+          }
+        }
+      }
+      ctx.outcome(&format!("size-ladder:round-trip-ok:pattern{pattern}"));
+      ctx.distinct(&(7u8, entries, pattern));
     }
     Case::History { pattern, entries, ops } => {
       // replay the whole history from the initial list, oracle at every step
@@ -1248,6 +1316,19 @@ fn generate(ctx: &Ctx) {
   }
   ctx.sample("round-trip", &rt[rt.len() - 1]);
   run_e1(ctx, "round-trip", &rt, json!({"cases": rt.len()}));
+  // (a'') size ladder: lists made by `new` at and just above every power of two up to 2^25 (quick) / 2^30 (thorough)
+  // entries, three set patterns
+  let top = ctx.by_tier(25u32, 30);
+  let mut ladder = Vec::new();
+  for k in 17..=top {
+    for extra in [0usize, 1, 8, 9] {
+      for pattern in 0..3u8 {
+        ladder.push(Case::SizeLadder { entries: (1usize << k) + extra, pattern });
+      }
+    }
+  }
+  ctx.sample("size-ladder", &ladder[ladder.len() - 1]);
+  run_e1(ctx, "size ladder", &ladder, json!({"cases": ladder.len(), "largest_entries": (1usize << top) + 9}));
   // (b)
   let mut b = Vec::new();
   for n in [0usize, 1, 8, MIN - 9, MIN - 8, MIN - 1, MIN, MIN + 1, MIN + 2, MIN + 3, MIN + 4, MIN + 5, MIN + 6, MIN + 7, MIN + 8, MIN + 9, 2 * MIN, (1 << 20) + 1] {
